@@ -7,7 +7,8 @@ Model: `Model/Fs.lean` (files with a durability flag, atomic `rename`, partial w
 clean-up; runs; kill = any prefix of a run; power loss = unsynced files degrade to a prefix).
 The protocol proved safe is `Fs.atomicWrite` (temp file next to the target, write, `fsync`,
 `rename`, `unlink` of the temp file on failure). It is tied to `luafmt --write` on every run: the
-file-modifying syscalls of an `strace -f` of the real binary over a three-file work directory are
+file-modifying syscalls of an `strace -f` of the real binary over a work directory with file-system
+variety (hard-linked file, symlinked file and directory, read-only file and directory, CRLF, empty) are
 regenerated into `Gen/FsTrace.lean`, and `C39_trace_is_protocol` checks (by kernel evaluation)
 that they are literally the syscall list of `atomicWrite` for the generated specs; likewise the
 trace of a run whose second file hits `RLIMIT_FSIZE` is a failure behaviour of the model.
@@ -92,6 +93,27 @@ theorem C39_fail_trace_is_behaviour :
       | shortWrite k => exact ⟨k, ho⟩
       | ok => cases h
       | failAt i => cases h
+
+/-- a syscall that modifies the data of path `p` in place -/
+def writesInPlace (p : Path) : Sys → Bool
+  | .creat q => q == p
+  | .write q _ => q == p
+  | _ => false
+
+/-- **per target file.** No path that exists before the run — source files, the second name of the
+hard-linked file, the file reached through a symlink, read-only files, files in read-only
+directories, CRLF and empty files — is ever opened with truncation or written to, in the unfaulted
+trace and in the `RLIMIT_FSIZE` trace: its content can only change by a `rename` onto it. -/
+theorem C39_trace_never_writes_a_source_in_place :
+    ∀ p ∈ Gen.FsTrace.sources, ∀ c ∈ Gen.FsTrace.observed ++ Gen.FsTrace.observedFail, writesInPlace p c = false := by
+  decide +kernel
+
+/-- every file the unfaulted run modified was modified by exactly one `rename` from a temporary
+file that is not a source path -/
+theorem C39_trace_targets_renamed_from_fresh_temps :
+    ∀ a ∈ Gen.FsTrace.specs, a.tgt ∈ Gen.FsTrace.sources ∧ a.tmp ∉ Gen.FsTrace.sources ∧
+      (Gen.FsTrace.observed.filter fun c => c == Sys.rename a.tmp a.tgt).length = 1 := by
+  decide +kernel
 
 theorem C39_trace_tmp_fresh :
     (∀ a ∈ Gen.FsTrace.specs, ∀ b ∈ Gen.FsTrace.specs, a.tmp ≠ b.tgt) ∧
